@@ -216,3 +216,23 @@ def own_end(data, offset, size):
     if n < 0 or offset + n > len(data):
         return offset
     return offset + n
+
+
+# ------------------------------------------------------------- C10 helpers
+def icv_of(p, icv_size):
+    if p.name == "UI" or p.name == "I":
+        return icv_size
+    return 0
+
+
+def within_miu(p, miu_size, icv_size):
+    """Interface contract of dequeue(miu_size, icv_size) for everything stored
+    in llc.sap[i]: the information field (plus ICV for UI/I) is at most
+    miu_size octets, or the PDU is one of the three-octet control PDUs
+    (DM, RR, RNR).  Every header has 2 or 3 octets, so either way the PDU adds
+    at most miu_size + 3 octets (plus its length prefix) to an aggregate."""
+    if p is None:
+        return True
+    if len(p) <= 3:
+        return True
+    return len(p) + icv_of(p, icv_size) - p.header_size <= miu_size
